@@ -369,6 +369,7 @@ struct Runner
 #ifdef TR_TIMING
     for (auto& s : sb)
       s->clear_transition_times();
+    reads_before_root = g_clock_reads.size();
 #endif
     // model first (its own controller and state copy)
     AbortCtl mctl = ctl;
@@ -465,8 +466,9 @@ struct Runner
         for (auto& rec : v) {
           bool is_inv = rec.invoke == rlbox::rlbox_transition::INVOKE;
           (is_inv ? got_inv : got_cb)++;
-          if (rec.time < 0 || rec.time > g_clock_now) {
-            c.violate("C19", "timing_record_out_of_simulated_range@tree", "time %lld of %lld simulated ns", (long long)rec.time, (long long)g_clock_now);
+          // every clock reading advances the simulated clock by at least 1 ns, so a crossing measured with two readings lasts >= 1 ns
+          if (rec.time < 1 || rec.time > g_clock_now) {
+            c.violate("C19", "timing_record_out_of_simulated_range@tree", "time %lld (simulated span %lld ns; every crossing spans at least two clock readings)", (long long)rec.time, (long long)g_clock_now);
             break;
           }
           if (is_inv ? (!rec.name || strcmp(rec.name, "g_multi") != 0 || rec.ptr != BT<Sbx>::fn_identity(*sb[(size_t)s])) : (rec.ptr != keys[(size_t)s])) {
@@ -487,6 +489,25 @@ struct Runner
                     inv_opt,
                     cbs);
       }
+      // exact durations: when every bracket is mandatory the model knows which two clock readings delimit it
+      bool any_optional = false;
+      for (auto& e : expt)
+        any_optional = any_optional || e.optional;
+      if (!c.stop && !any_optional && reads_before_root + model_reads == g_clock_reads.size()) {
+        std::vector<size_t> pos((size_t)nsbx, 0);
+        for (auto& e : expt) {
+          auto& v = sb[(size_t)e.s]->process_and_get_transition_times();
+          size_t k = pos[(size_t)e.s]++;
+          if (k >= v.size())
+            break;
+          int64_t want = g_clock_reads[reads_before_root + e.exit_read] - g_clock_reads[reads_before_root + e.enter_read];
+          if (v[k].time != want) {
+            c.violate("C19", "timing_record_wrong_duration@tree", "record %zu of sandbox #%d: %lld ns, the clock readings that delimit this crossing are %lld ns apart", k, e.s, (long long)v[k].time, (long long)want);
+            break;
+          }
+        }
+        c.probe("timing_durations_checked_exactly");
+      }
       c.st.sim_ns += (uint64_t)g_clock_now;
     }
 #endif
@@ -496,6 +517,7 @@ struct Runner
       attempt([&] { s->destroy_sandbox(); });
   }
   static inline AbortCtl* g_guest_ctl = nullptr;
+  size_t reads_before_root = 0;
 };
 
 struct TransitionWorld : World
